@@ -55,6 +55,8 @@ def run(ctx: Ctx):
     )
     res.rule("K-BY-RANK", "hard_thresholding (and through it normalised sparsity) keeps exactly k entries: the selecting comparison is between argsort ranks and the count, never between magnitudes and a cut-off magnitude (ties would keep more than k)", floor=1)
     ctx.guarded(k_by_rank, ctx)
+    res.rule("INVOLUTION-PAIR", "an operator that transforms its work array under a flag before the computation (flip for the decreasing variant) undoes it afterwards with the same arguments", floor=1)
+    ctx.guarded(involution_pair, ctx)
     ctx.guarded(
         run_units,
         ctx,
@@ -140,3 +142,46 @@ def k_by_rank(ctx: Ctx):
             res.instance("K-BY-RANK", f"{f.name}: {src(t)[:60]}", sample={"line": t.lineno, "left": kl, "right": kr, "ok": ok})
             if not ok and "VALUE" in (kl, kr):
                 ctx.finding("K-BY-RANK", f, t, f"`{src(t)[:80]}` selects the entries to keep by comparing VALUES ({kl} vs {kr}): every entry tied with the cut-off survives, so more than `{kparam}` entries are kept whenever magnitudes tie and the result is not k-sparse. Select by rank (argsort positions compared with the count)", construct=f"{f.name}: selection by value {src(t)[:60]}")
+
+
+# ---------------------------------------------------------------------------------
+# INVOLUTION-PAIR: what is flipped on the way in is flipped back the same way
+# ---------------------------------------------------------------------------------
+def involution_pair(ctx: Ctx):
+    """The decreasing variants work on a flipped copy and flip the result back: two statements
+    `if <flag>: w = flip(w, ...)` under the same test, before and after the computation.  The
+    flip is its own inverse only when both use the same arguments; `flip(w)` (all axes) on the
+    way in and `flip(w, axis=0)` on the way out leaves the columns reversed."""
+    import ast
+
+    from ..common import call_name, is_name, src
+    from ..model import AnalysisError
+
+    res = ctx.res
+    mod = ctx.repo.module("tensorly.tenalg.proximal")
+    n = 0
+    for f in [g for g in ctx.repo.functions.values() if g.module is mod and g.cls is None]:
+        flips = []
+        for s in f.node.body:
+            if isinstance(s, ast.If) and not s.orelse and len(s.body) == 1 and isinstance(s.body[0], ast.Assign):
+                a = s.body[0]
+                if isinstance(a.value, ast.Call) and call_name(a.value) in ("flip", "transpose", "moveaxis") and a.value.args and len(a.targets) == 1 and isinstance(a.targets[0], ast.Name) and is_name(a.value.args[0], a.targets[0].id):
+                    flips.append((src(s.test), a.targets[0].id, call_name(a.value), a.value, s))
+        by_key = {}
+        for t, w, fn, c, s in flips:
+            by_key.setdefault((t, w, fn), []).append((c, s))
+        for (t, w, fn), lst in by_key.items():
+            if len(lst) < 2:
+                continue
+            n += 1
+
+            def sig(c):
+                return ([src(a) for a in c.args[1:]], sorted((k.arg, src(k.value)) for k in c.keywords))
+
+            first, last = lst[0][0], lst[-1][0]
+            ok = sig(first) == sig(last)
+            res.instance("INVOLUTION-PAIR", f"{f.name}: if {t}: {w} = {fn}({w}, ...) x{len(lst)}", sample={"in": src(first)[:50], "out": src(last)[:50], "ok": ok})
+            if not ok:
+                ctx.finding("INVOLUTION-PAIR", f, lst[-1][1], f"`{f.name}` transforms its work array with `{src(first)[:60]}` before the computation and with `{src(last)[:60]}` after it (both under `if {t}`): the second does not undo the first, so for a matrix with several columns the result comes back with its columns (or rows) permuted", construct=f"{f.name}: {src(first)[:40]} vs {src(last)[:40]}")
+    if n == 0:
+        raise AnalysisError("INVOLUTION-PAIR: no in/out transformation pair found in tensorly.tenalg.proximal; the rule's anchors vanished")
